@@ -1,4 +1,5 @@
 import OSProofs.Props.C03
+import OSProofs.GenTie
 #print axioms OS.C03_scores
 #print axioms OS.C03_relabel
 #print axioms OS.C03_relabel_on
@@ -14,3 +15,4 @@ import OSProofs.Props.C03
 #print axioms OS.C03_ties
 #print axioms OS.C03_strict
 #print axioms OS.C03_dense_of_rate
+#print axioms OS.Gen.unaryMinus_eq
